@@ -154,12 +154,16 @@ pub fn with<R>(f: impl FnOnce(&mut Env) -> R) -> R {
 pub fn reset() {
     with(|e| {
         for b in e.blocks.drain(..) {
+            if b.base.is_null() {
+                continue;
+            }
             unsafe {
-                std::alloc::dealloc(
-                    b.base,
-                    Layout::from_size_align_unchecked(b.size + 2 * b.rz, b.rz.max(b.align)),
-                )
-            };
+                if b.rz == 0 {
+                    std::alloc::dealloc(b.base, Layout::from_size_align_unchecked(b.size, b.align));
+                } else {
+                    std::alloc::dealloc(b.base, Layout::from_size_align_unchecked(b.size + 2 * b.rz, b.rz.max(b.align)));
+                }
+            }
         }
         ARMED.with(|a| a.set(false));
         CHOOSING.with(|a| a.set(false));
@@ -348,6 +352,11 @@ pub fn reg_live_list() -> Vec<u32> {
 // Checking allocator
 // ---------------------------------------------------------------------------
 
+/// Pass-through mode (sanitizer / Miri executors): blocks come straight from
+/// the system allocator with the exact layout and are freed immediately, so
+/// that the executor's own red zones and use-after-free detection apply.
+pub static PASSTHROUGH: std::sync::atomic::AtomicBool = std::sync::atomic::AtomicBool::new(false);
+
 const CANARY: u8 = 0xA5;
 const POISON_NEW: u8 = 0xCD;
 const POISON_FREE: u8 = 0xDD;
@@ -397,6 +406,17 @@ unsafe impl Allocator for CheckAlloc {
                 }
             });
         }
+        if PASSTHROUGH.load(std::sync::atomic::Ordering::Relaxed) {
+            let base = unsafe { std::alloc::alloc(layout) };
+            if base.is_null() {
+                return Err(AllocError);
+            }
+            with(|e| {
+                e.live_bytes += size;
+                e.blocks.push(Block { base, user: base, size, align, rz: 0, live: true });
+            });
+            return Ok(NonNull::slice_from_raw_parts(NonNull::new(base).unwrap(), size));
+        }
         let rz = align.max(32);
         let total = size + 2 * rz;
         let base = unsafe { std::alloc::alloc(Layout::from_size_align(total, rz).unwrap()) };
@@ -434,7 +454,13 @@ unsafe impl Allocator for CheckAlloc {
                     let bad = check_canary(b);
                     b.live = false;
                     e.live_bytes -= b.size;
-                    unsafe { std::ptr::write_bytes(b.user, POISON_FREE, b.size) };
+                    if b.rz == 0 {
+                        // pass-through block: give it back right away
+                        unsafe { std::alloc::dealloc(b.base, Layout::from_size_align_unchecked(b.size, b.align)) };
+                        b.base = std::ptr::null_mut();
+                    } else {
+                        unsafe { std::ptr::write_bytes(b.user, POISON_FREE, b.size) };
+                    }
                     if let Some(m) = bad {
                         if e.errors.len() < 16 {
                             e.errors.push(m);
@@ -456,6 +482,9 @@ unsafe impl Allocator for CheckAlloc {
 }
 
 fn check_canary(b: &Block) -> Option<String> {
+    if b.rz == 0 {
+        return None;
+    }
     unsafe {
         let before = std::slice::from_raw_parts(b.base, b.rz);
         let after = std::slice::from_raw_parts(b.base.add(b.rz + b.size), b.rz);
@@ -497,7 +526,7 @@ pub fn alloc_check_from(from: usize) -> Result<(), String> {
             if let Some(m) = check_canary(b) {
                 return Err(m);
             }
-            if !b.live {
+            if !b.live && !b.base.is_null() && b.rz != 0 {
                 let body = unsafe { std::slice::from_raw_parts(b.user, b.size) };
                 if let Some(i) = body.iter().position(|&x| x != POISON_FREE) {
                     return Err(format!("allocator: write to freed block (size {}) at offset {}", b.size, i));
